@@ -604,8 +604,9 @@
 		/// and each of the other listed (version, state) must be refused or be reported exactly
 		NoAnswerFor(Vec<&'static str>, Vec<(&'static str, usize)>),
 	}
-	fn check_malformed(t: &mut Tally, family: &str, files: &[(String, String)], demand: &Demand) {
-		for order in perms(files.len()) {
+	fn check_malformed(t: &mut Tally, family: &str, files: &[(String, String)], demand: &Demand) { check_malformed_in(t, family, files, demand, perms(files.len())) }
+	fn check_malformed_in(t: &mut Tally, family: &str, files: &[(String, String)], demand: &Demand, orders: Vec<Vec<usize>>) {
+		for order in orders {
 			let what = describe(files, &order, family);
 			t.at(what.as_bytes());
 			let (bad, good): (Vec<&str>, Vec<(&str, usize)>) = match demand { Demand::Refuse => (vec![], vec![]), Demand::NoAnswerFor(b, g) => (b.clone(), g.clone()) };
@@ -670,6 +671,40 @@
 			// --- unknown versions of a well-formed directory
 			check_malformed(&mut t, "unknown versions", &[rootf(r, 0), edgef(r, x, 0, 1), edgef(x, y, 1, 2)],
 				&NoAnswerFor(vec!["1.3", "9.9", "", "1", "1.0.tiny", "1.0#1.1", "server-0.3", "~", "#"].into_iter().filter(|u| !hs(&[r, x, y]).contains(u)).collect(), hg(&[(r, 0), (x, 1), (y, 2)])));
+		}
+		t.finish();
+	}
+
+	/// every directed graph over the root and three more versions with at most five edges that holds a cycle (entered once, twice, over two branches, through the root, apart
+	/// from it, several cycles): no version on a cycle may get an answer; every other version is refused or reported exactly
+	#[test]
+	fn every_small_graph_with_a_cycle_is_refused_or_answers_only_outside_the_cycle() {
+		let mut t = Tally::new("every_small_graph_with_a_cycle_is_refused_or_answers_only_outside_the_cycle");
+		for names in [["1.0", "1.1", "1.2", "1.3"], ["1.0~server-0.0", "1.1", "1.2~server-0.2", "1.3"]] {
+			let h = |n: &'static str| -> Vec<&'static str> { match n.split_once('~') { Some((a, b)) => vec![a, b], None => vec![n] } };
+			let all: Vec<(usize, usize)> = (0..4).flat_map(|a| (0..4).filter(move |b| *b != a).map(move |b| (a, b))).collect();
+			for mask in 1u32..(1 << all.len()) {
+				if mask.count_ones() > 5 { continue; }
+				let edges: Vec<(usize, usize)> = all.iter().enumerate().filter(|(i, _)| mask & (1 << i) != 0).map(|(_, e)| *e).collect();
+				// reach[a][b]: a path of at least one edge from a to b
+				let mut reach = [[false; 4]; 4];
+				for &(a, b) in &edges { reach[a][b] = true; }
+				for k in 0..4 { for a in 0..4 { for b in 0..4 { if reach[a][k] && reach[k][b] { reach[a][b] = true; } } } }
+				let on_cycle: Vec<usize> = (0..4).filter(|&v| reach[v][v]).collect();
+				if on_cycle.is_empty() { continue; }
+				// versions that occur in the directory at all
+				let occurs = |v: usize| v == 0 || edges.iter().any(|&(a, b)| a == v || b == v);
+				let mut files = vec![rootf(names[0], 0)];
+				for &(a, b) in &edges { files.push(edgef(names[a], names[b], a, b)); }
+				let bad: Vec<&'static str> = on_cycle.iter().flat_map(|&v| h(names[v])).collect();
+				let good: Vec<(&'static str, usize)> = (0..4).filter(|&v| occurs(v) && !on_cycle.contains(&v)).flat_map(|v| h(names[v]).into_iter().map(move |k| (k, v))).collect();
+				let n = files.len();
+				let orders: Vec<Vec<usize>> = if n <= 4 { perms(n) } else {
+					(0..n).flat_map(|r| { let fwd: Vec<usize> = (0..n).map(|i| (i + r) % n).collect(); let mut bwd = fwd.clone(); bwd.reverse(); vec![fwd, bwd] }).collect()
+				};
+				let entries = edges.iter().filter(|&&(a, b)| !on_cycle.contains(&a) && on_cycle.contains(&b)).count();
+				check_malformed_in(&mut t, &format!("graph {edges:?} with a cycle over {on_cycle:?} entered by {entries} edge(s)"), &files, &Demand::NoAnswerFor(bad, good), orders);
+			}
 		}
 		t.finish();
 	}
